@@ -61,6 +61,8 @@ def gate(kind, *info):
         flush_log()
         os._exit(99)
     if FAULT_AT is not None and n == FAULT_AT:
+        with _lock:
+            LOG[-1] = (n, 'fault', kind) + info[:2]   # the call is about to fail: it does not happen
         if kind == 'sql':
             from sqlalchemy.exc import OperationalError
             raise OperationalError('injected', None, Exception('disk I/O error'))
